@@ -140,6 +140,8 @@ class Script:
       else:
         style = c["xstyle"][i - 1]
       return rs.HANDLED if style == "h" else self._fall(hsm, i, rs)
+    if bad and bad[0] == "nosuper" and bad[1] == i and name == "SEARCH_FOR_SUPER_SIGNAL":
+      return None      # a handler without a final else clause: asked for its super state it returns no status and names no parent
     if name in c["sigs"]:
       if bad and bad[0] == "none" and bad[1] == i and bad[2] == name:
         return None
@@ -398,6 +400,33 @@ def make_host(kind, script, cap):
   return Host("c") if kind == "factory" else Host()
 
 
+def build_decoy(other, script, use_factory):
+  """ANOTHER chart object of the same class, alive in the same process, that uses the same state names with a different
+  (flat) hierarchy and different callbacks: charts must not share their registries"""
+  from miros.hsm import state_method_template
+  from miros.event import signals, return_status
+
+  def decoy_cb(chart, e):
+    return return_status.HANDLED
+  decoy_cb.__name__ = "decoy_cb"
+  n = script.n
+  if use_factory:
+    bps = {i: other.create(state="s%d" % i) for i in range(1, n + 1)}
+    fns = {i: bps[i].to_method() for i in range(1, n + 1)}
+    for i in range(1, n + 1):
+      for sg in script.c["sigs"]:
+        bps[i].catch(signal=getattr(signals, sg), handler=decoy_cb)
+    for i in range(1, n + 1):
+      other.nest(fns[i], parent=None)
+  else:
+    fns = {i: state_method_template("s%d" % i) for i in range(1, n + 1)}
+    for i in range(1, n + 1):
+      for sg in script.c["sigs"]:
+        other.register_signal_callback(fns[i], getattr(signals, sg), decoy_cb)
+      other.register_parent(fns[i], other.top)
+  return other
+
+
 class Rings:
   """Temporarily shrink the ring-buffer sizes (class attributes read at construction)."""
 
@@ -451,12 +480,18 @@ def run_chart(chart, ops):
         script.build_dyn(spied)
       elif build == "template":
         script.build_template(hsm)
+        if chart.get("decoy"):
+          build_decoy(make_host(host_kind, script, cap), script, False)
       elif build == "factory":
         script.build_template(hsm, use_factory=True)
+        if chart.get("decoy"):
+          build_decoy(make_host(host_kind, script, cap), script, True)
       elif build == "hand":
         script.build_from_text(script.hand_text(), script.callbacks())
       elif build == "tocode":
         cbs = script.build_template(hsm0, use_factory=(host_kind == "factory"))
+        if chart.get("decoy"):
+          build_decoy(make_host(host_kind, script, cap), script, host_kind == "factory")
         texts = [hsm0.to_code(script.fn[i]) for i in range(1, script.n + 1)]
         script.build_from_text(texts, cbs)
         chart["_texts"] = texts
@@ -480,6 +515,55 @@ def run_chart(chart, ops):
         hsm.live_trace = True
         hsm.register_live_trace_callback(lambda line: live_trc_lines.append(line))
     started = False
+    state = {"started": False}
+    def finish_rec(rec):
+      # snapshot of everything observable after an op (or after one step of complete_circuit); appends the record
+      rec["log"] = [[r[0], r[1], r[2], r[3], r[4]] for r in script.log]
+      if rec["outcome"] == "hang":
+        rec["log"] = rec["log"][:40]       # the runaway call sequence is not needed to reject the op
+      rec["marks"] = list(script.opmarks)
+      if state["started"] or rec["outcome"] != "ok":
+        try:
+          rec["cur"] = script.index_of(getattr(hsm.state, "fun", None), hsm)
+          rec["temp"] = script.index_of(getattr(hsm.temp, "fun", None), hsm)
+        except Exception:
+          rec["cur"], rec["temp"] = -3, -3
+      else:
+        rec["cur"], rec["temp"] = -1, -1
+      rec["name"] = str(getattr(hsm, "state_name", ""))
+      sf = getattr(hsm, "state_fn", None)
+      rec["fn"] = script.index_of(sf, hsm)
+      instr = bool(getattr(hsm, "instrumented", False)) and host_kind != "plain"
+      rec["instr"] = instr
+      if instr:
+        rec["rtc"] = list(hsm.rtc.spy)
+        rec["full"] = list(hsm.full.spy)
+        rec["trc"] = [[t.start_state if t.start_state is not None else "", t.signal if t.signal is not None else "",
+                       t.end_state if t.end_state is not None else ""] for t in hsm.full.trace]
+      else:
+        rec["rtc"], rec["full"], rec["trc"] = [], [], []
+      if queued:
+        rec["q"] = [[e.signal_name, e.payload if isinstance(e.payload, int) else 0] for e in getattr(hsm.queue, "deque", hsm.queue)]
+        rec["dq"] = [[e.signal_name, e.payload if isinstance(e.payload, int) else 0] for e in hsm.defer_queue]
+        cs = None
+        try:
+          cs = hsm.current_state() if state["started"] else None
+        except Exception as ex:  # noqa
+          cs = "raised:" + type(ex).__name__
+        rec["cs"] = cs if isinstance(cs, str) else ""
+      else:
+        rec["q"], rec["dq"], rec["cs"] = [], [], ""
+      sc = []
+      for line in rec["rtc"]:
+        m = _SPY_RE.match(line)
+        if m:
+          sc.append([m.group(1), int(m.group(2))])
+      rec["spycalls"] = sc
+      rec["live_spy"] = list(live_spy_lines)
+      rec["live_trc"] = [parse_trace_line(s) for s in live_trc_lines]
+      rec["live_trc_raw"] = list(live_trc_lines)
+      events.append(rec)
+
     for op in ops:
       script.begin_op()
       del live_spy_lines[:]
@@ -495,6 +579,7 @@ def run_chart(chart, ops):
             hsm.start_at(script.fn[op[1]])
           script.init_enabled = True
           started = True
+          state["started"] = True
         elif k == "dispatch":
           e = script.new_event(op[1]); rec["eid"] = e.payload
           hsm.dispatch(e)
@@ -507,7 +592,30 @@ def run_chart(chart, ops):
         elif k == "next_rtc":
           r = hsm.next_rtc(); rec["ret"] = "T" if r else "F"
         elif k == "complete_circuit":
-          hsm.complete_circuit()
+          # one record per run-to-completion step inside the circuit (the instance's next_rtc is wrapped), then "circuit_end"
+          orig_next = hsm.next_rtc
+          inner_failed = []
+
+          def inner_step():
+            irec = {"k": "next_rtc", "arg": "", "ret": "", "outcome": "ok", "circuit": 1}
+            try:
+              r = orig_next()
+              irec["ret"] = "T" if r else "F"
+            except Hang:
+              irec["outcome"] = "hang"; inner_failed.append(1); finish_rec(irec); raise
+            except Exception as ex:  # noqa
+              irec["outcome"] = "raised:" + type(ex).__name__; inner_failed.append(1); finish_rec(irec); raise
+            finish_rec(irec)
+            script.begin_op()
+            del live_spy_lines[:]
+            del live_trc_lines[:]
+            return r
+          hsm.next_rtc = inner_step
+          try:
+            hsm.complete_circuit()
+          finally:
+            del hsm.next_rtc
+          rec["k"] = "circuit_end"
         elif k == "is_in":
           r = hsm.is_in(script.fn[op[1]] if op[1] else hsm.top); rec["ret"] = "T" if r else "F"
         elif k == "child_state":
@@ -533,51 +641,8 @@ def run_chart(chart, ops):
       except Exception as ex:  # noqa
         rec["outcome"] = "raised:" + type(ex).__name__
         rec["exc"] = repr(ex)[:200]
-      rec["log"] = [[r[0], r[1], r[2], r[3], r[4]] for r in script.log]
-      if rec["outcome"] == "hang":
-        rec["log"] = rec["log"][:40]       # the runaway call sequence is not needed to reject the op
-      rec["marks"] = list(script.opmarks)
-      if started or rec["outcome"] != "ok":
-        try:
-          rec["cur"] = script.index_of(getattr(hsm.state, "fun", None), hsm)
-          rec["temp"] = script.index_of(getattr(hsm.temp, "fun", None), hsm)
-        except Exception:
-          rec["cur"], rec["temp"] = -3, -3
-      else:
-        rec["cur"], rec["temp"] = -1, -1
-      rec["name"] = str(getattr(hsm, "state_name", ""))
-      sf = getattr(hsm, "state_fn", None)
-      rec["fn"] = script.index_of(sf, hsm)
-      instr = bool(getattr(hsm, "instrumented", False)) and host_kind != "plain"
-      rec["instr"] = instr
-      if instr:
-        rec["rtc"] = list(hsm.rtc.spy)
-        rec["full"] = list(hsm.full.spy)
-        rec["trc"] = [[t.start_state if t.start_state is not None else "", t.signal if t.signal is not None else "",
-                       t.end_state if t.end_state is not None else ""] for t in hsm.full.trace]
-      else:
-        rec["rtc"], rec["full"], rec["trc"] = [], [], []
-      if queued:
-        rec["q"] = [[e.signal_name, e.payload if isinstance(e.payload, int) else 0] for e in getattr(hsm.queue, "deque", hsm.queue)]
-        rec["dq"] = [[e.signal_name, e.payload if isinstance(e.payload, int) else 0] for e in hsm.defer_queue]
-        cs = None
-        try:
-          cs = hsm.current_state() if started else None
-        except Exception as ex:  # noqa
-          cs = "raised:" + type(ex).__name__
-        rec["cs"] = cs if isinstance(cs, str) else ""
-      else:
-        rec["q"], rec["dq"], rec["cs"] = [], [], ""
-      sc = []
-      for line in rec["rtc"]:
-        m = _SPY_RE.match(line)
-        if m:
-          sc.append([m.group(1), int(m.group(2))])
-      rec["spycalls"] = sc
-      rec["live_spy"] = list(live_spy_lines)
-      rec["live_trc"] = [parse_trace_line(s) for s in live_trc_lines]
-      rec["live_trc_raw"] = list(live_trc_lines)
-      events.append(rec)
+      if not (op[0] == "complete_circuit" and rec["outcome"] != "ok" and events and events[-1].get("circuit") and events[-1]["outcome"] != "ok"):
+        finish_rec(rec)
       if rec["outcome"] != "ok" and not (rec["k"] == "child_state" and rec["outcome"] == "raised:AssertionError"):
         break      # (a failed child_state query is an answer, not a crash: the caller catches it and goes on)
   finally:
